@@ -75,12 +75,13 @@ def cases(tier):
             for t in templates:
                 for org in (0, 1):
                     out.append({"grid": U.spec(cls, shape, (t,) * d, org), "part": "linear"})
+                    out.append({"grid": U.spec(cls, shape, (t,) * d, org), "part": "opunits"})
     return out
 
 
 def weight(case):
     n = int(np.prod([k + 2 for k in case["grid"]["shape"]]))
-    return n * (40 if case["part"] == "units" else n)
+    return n * (40 if case["part"] == "units" else (8 if case["part"] == "opunits" else n))
 
 
 def scaled_mesh(spec, L):
@@ -172,6 +173,60 @@ def run_config(spec, setup, ts, scheme, L, T, K):
                 rhs = rhs + pf.constantSourceTerm(gamma)
             phi = pf.solveExplicitPDE(phi, dte, rhs)
     return np.asarray(phi._value, dtype=float) / K, kappa
+
+
+def _opunits_part(case, res):
+    """Dimensional homogeneity term by term: the grid in length units of 2^k (lengths x L, angles unchanged) with D x L^2 and
+    u x L gives bit-identical diffusion / central / upwind matrices and TVD vectors (all of dimension 1/T resp. K/T); the
+    gradient scales by 1/L exactly.  All combinations of one flow direction per axis, two generic fields, three limiters."""
+    spec = case["grid"]
+    F = res["findings"]
+    gid = U.spec_id(spec)
+    cls = spec["cls"]
+    d = U.dim(cls)
+    base = scaled_mesh(spec, 1.0)
+    dims = tuple(int(k) for k in base.dims)
+    full = tuple(k + 2 for k in dims)
+    fshapes = U.face_shapes(base)
+    Darr = [U.generic_array(s_, tag=521 + a_) for a_, s_ in enumerate(fshapes)]
+    absu = [U.generic_array(s_, tag=525 + a_) for a_, s_ in enumerate(fshapes)]
+    flds = [U.generic_array(full, tag=529, signed=True), U.generic_array(full, tag=531)]
+    seen = set()
+
+    def build(mesh, L, sg, fld, lname):
+        D = U.face_from_arrays(mesh, [a_ * L * L for a_ in Darr])
+        u = U.face_from_arrays(mesh, [a_ * s_ * L for a_, s_ in zip(absu, sg)])
+        phi = pf.CellVariable(mesh, fld.copy())
+        gr = pf.gradientTerm(phi)
+        return {"diffusionTerm": dense(pf.diffusionTerm(D)), "convectionTerm": dense(pf.convectionTerm(u)),
+                "convectionUpwindTerm": dense(pf.convectionUpwindTerm(u)),
+                "convectionTVDupwindRHSTerm": np.asarray(pf.convectionTVDupwindRHSTerm(u, phi, pf.fluxLimiter(lname)), dtype=float),
+                "divergenceTerm": np.asarray(pf.divergenceTerm(u), dtype=float),
+                "gradientTerm": [np.asarray(getattr(gr, c_), dtype=float) for c_ in U.COMP[:d]]}
+    kinds = U.AXES[cls]
+    for sg in U.axis_sign_patterns(d, with_zero=False):
+        for fi, fld in enumerate(flds):
+            for lname in (("Koren", "SUPERBEE", "VanLeer") if fi == 0 else ("Koren",)):
+                ref = build(base, 1.0, sg, fld, lname)
+                for k in (-7, 3):
+                    L = 2.0 ** k
+                    got = build(scaled_mesh(spec, L), L, sg, fld, lname)
+                    res["evals"] += 1
+                    res["nontrivial"] += 1
+                    for name in ref:
+                        if name == "gradientTerm":
+                            ok = all(np.array_equal(g_ * (L if kinds[ax] in ("lin", "rad") else L), r_) or
+                                     np.allclose(g_ * L, r_, rtol=4 * EPS, atol=0) for ax, (g_, r_) in enumerate(zip(got[name], ref[name])))
+                        else:
+                            a_, b_ = got[name], ref[name]
+                            ok = a_.shape == b_.shape and np.all(np.abs(a_ - b_) <= 4 * EPS * np.maximum(np.abs(a_), np.abs(b_)))
+                        if not ok:
+                            key = "C17:opunits:%s:%s" % (name, cls)
+                            if key not in seen:
+                                seen.add(key)
+                                F.append({"key": key, "msg": "%s on %s: in length units of 2^%d (D x L^2, u x L, flow directions %s, limiter %s) the term is not the one "
+                                                             "of the original units" % (name, gid, k, list(sg), lname), "detail": {"grid": gid, "L": L, "signs": list(sg)}})
+    res["sample"] = {"grid": gid, "sign_patterns": 2 ** d}
 
 
 def _units_part(case, res):
@@ -281,6 +336,8 @@ def run_case(case):
     res = {"evals": 0, "nontrivial": 0, "findings": [], "outcomes": {}}
     if case["part"] == "units":
         _units_part(case, res)
+    elif case["part"] == "opunits":
+        _opunits_part(case, res)
     else:
         _linear_part(case, res)
     res["outcomes"] = {"%s:%s" % (case["part"], "ok" if not res["findings"] else "viol"): 1}
